@@ -9,6 +9,7 @@ import Mav.Spec.Fanout
 import Mav.Spec.Close
 import Mav.Spec.Lifecycle
 import Mav.Spec.AutoMsgs
+import Mav.Spec.Gen18
 /- mavdrv: one operation per line on stdin, model (and spec) answer per line on stdout. -/
 open Mav Drv
 
@@ -190,6 +191,61 @@ def specInitLine (st : Msg.GoStruct) : String :=
 def H := Sha256.hash
 
 
+
+
+/-! C18 -/
+open Gen18 in
+def decSet (s : String) : Option (List XFile) :=
+  (s.splitOn "|").mapM (fun fl =>
+    match fl.splitOn ";" with
+    | [name, ver, incs, enums, msgs] => do
+      let und (x : String) := if x == "-" then "" else x
+      let es ← (if enums == "-" then some [] else (enums.splitOn "/").mapM (fun e =>
+        match e.splitOn ":" with
+        | [n, b, ents] => do
+          let en ← (if ents.isEmpty then some [] else (ents.splitOn ",").mapM (fun kv =>
+            match kv.splitOn "=" with
+            | [k, v] => some ({ name := k, value := v } : XEntry)
+            | _ => none))
+          pure ({ name := n, bitmask := b == "1", entries := en } : XEnum)
+        | _ => none))
+      let ms ← (if msgs == "-" then some [] else (msgs.splitOn "/").mapM (fun m =>
+        match m.splitOn ":" with
+        | [id, n, fields] => do
+          let i ← id.toNat?
+          let fl ← (if fields.isEmpty then some [] else (fields.splitOn "~").mapM (fun f =>
+            match f.splitOn "," with
+            | [ty, nm, en, ex] => some ({ ty := ty, name := nm, enum := und en, ext := ex == "1" } : XField)
+            | _ => none))
+          pure ({ id := i, name := n, fields := fl } : XMsg)
+        | _ => none))
+      pure ({ name := name, version := und ver, includes := if incs == "-" then [] else incs.splitOn ",", enums := es, msgs := ms } : XFile)
+    | _ => none)
+
+def sortById (l : List (Nat × String)) : List (Nat × String) :=
+  l.foldr (fun x acc => let rec ins : List (Nat × String) → List (Nat × String)
+    | [] => [x]
+    | y :: r => if x.1 ≤ y.1 then x :: y :: r else y :: ins r
+  ins acc) []
+
+def factLine (id crc sn se : Nat) (order : List (Nat × Bool)) : String :=
+  s!"M{id}:{crc}:{sn}:{se}:" ++ ",".intercalate (order.map (fun (i, e) => s!"{i}.{if e then 1 else 0}"))
+
+open Gen18 in
+def gencheckWith (files : Option (List XFile)) (version : List XFile → Nat)
+    (msgFacts : XMsg → Option String) (value : String → Option Nat) (set : List XFile) : String :=
+  match files with
+  | none => "ERR"
+  | some order =>
+    match (order.flatMap (·.msgs)).mapM (fun m => (msgFacts m).map (fun s => (m.id, s))) with
+    | none => "ERR"
+    | some facts =>
+      let ents := set.flatMap (fun f => f.enums.flatMap (·.entries))
+      let ents := ents.foldl (fun acc e => if acc.any (·.name == e.name) then acc else acc ++ [e]) []
+      match ents.mapM (fun e => (value e.value).map (fun v => e.name ++ "=" ++ toString v)) with
+      | none => "ERR"
+      | some evs =>
+        s!"v={version order};" ++ ";".intercalate ((sortById facts).map (·.2)) ++ ";E:" ++ ",".intercalate evs
 
 /-! C16 -/
 def autoCfg (ds : DState) (dn : String) (version : Nat) (disable enable : Bool) (systype ap freq : Nat) : Auto.Cfg :=
@@ -422,6 +478,23 @@ def step (ds : DState) (line : String) : DState × String :=
           ";".intercalate m ++ "\t" ++ ";".intercalate sp
         | none => "bad-op"
       | none => "bad-op")
+  | ["gencheck", set] =>
+    (ds, match decSet set with
+      | none => "bad-op"
+      | some fs =>
+        let model := gencheckWith (Gen18.processed fs) (fun o => Gen18.versionNum (Gen18.versionOf o))
+          (fun m => match Gen18.processMessage m with
+            | none => none
+            | some st => match Msg.init st with
+              | .ok rw => some (factLine m.id rw.crcExtra.toNat rw.sizeNormal.toNat rw.sizeExtended.toNat
+                                  (rw.fields.map (fun f => (f.index, f.isExt))))
+              | .error _ => some s!"M{m.id}:INIT-ERR")
+          Gen18.parseValue fs
+        let spec := gencheckWith (Spec.Gen18.filesOf fs) Spec.Gen18.versionOf
+          (fun m => (Spec.Gen18.defOf m).map (fun d => factLine m.id (Spec.Msg.crcExtra d) (Spec.Msg.sizeBase d) (Spec.Msg.sizeExt d)
+                                  ((Spec.Msg.wireOrder d).map (fun f => (f.idx, f.ext)))))
+          Spec.Gen18.valueOf fs
+        model ++ "\t" ++ spec)
   | ["lifecheck", kind, script] =>
     (ds, if kind == "tcps" || kind == "udps" then
         match (script.splitOn ",").mapM decPeer with
